@@ -102,6 +102,8 @@ class KernelSym(Evaluator):
         base = self.ev(node.value)
         if isinstance(base, Sym) and node.attr == "shape":
             return ("shape", base.name)
+        if isinstance(base, Sym) and node.attr == "dtype":
+            return ("dtype-of-input", base.name)
         raise Unsupported("attribute %s" % norm(node))
 
     def subscript(self, node, base, index):
@@ -247,7 +249,8 @@ class KernelSym(Evaluator):
                 if d in ("numpy.full", "numpy.zeros", "numpy.empty"):
                     shape = kwargs.get("shape", args[0] if args else None)
                     fill = kwargs.get("fill_value", args[1] if len(args) > 1 else None)
-                    return ("alloc", shape, fill)
+                    pos = 2 if d == "numpy.full" else 1
+                    return ("alloc", shape, fill, kwargs.get("dtype", args[pos] if len(args) > pos else None))
                 if d in ("numpy.floor",):
                     return Wrapped("floor", args[0])
                 if d == "numpy.nan":
